@@ -3,7 +3,7 @@
 use crate::adapt::*;
 use crate::c02::with_big;
 use ppp::v2;
-use spec::engine::{exhaustive, Monitor, StreamSpec, Tier};
+use spec::engine::{exhaustive, stream, Monitor, StreamSpec, Tier};
 use spec::json::show;
 use spec::record::Recorder;
 use spec::rng::{mix, Rng};
@@ -61,13 +61,63 @@ fn judge_one(input: &[u8], expect: V2Ref, what: &str, rec: &mut Recorder) {
     }
 }
 
+/// The statement taken literally, for ANY input: if the parser reports Incomplete(n) then n is
+/// the number of bytes supplied; if it reports Partial(have, need) then have = bytes after the
+/// fixed part, need = declared length, and supplying exactly need - have more bytes (any values)
+/// gives a success of 16 + need bytes.
+pub fn follow_through(input: &[u8], what: &str, rec: &mut Recorder) {
+    rec.event();
+    let got = guard(|| v2::Header::try_from(input).map(|h| h.len()));
+    let viol = |rec: &mut Recorder, rule: &str, d: String| {
+        rec.violation(
+            &format!("{}:{}", rule, what),
+            enc_case("v2", &input[..input.len().min(70_100)]),
+            format!("{}|{}", what, if input.len() < 16 { "fixed-part" } else { "payload" }),
+            format!("{} on {:?} ({} bytes present): {}", rule, show(&input[..input.len().min(20)], 20), input.len(), d),
+        );
+    };
+    match got {
+        Ok(Err(v2::ParseError::Incomplete(n))) => {
+            if n != input.len() || input.len() >= 16 {
+                viol(rec, "incomplete-count", format!("Incomplete({}) reported", n));
+            } else {
+                rec.class("any-input|Incomplete(k) exact", || show(input, 20));
+            }
+        }
+        Ok(Err(v2::ParseError::Partial(have, need))) => {
+            let declared = if input.len() >= 16 { u16::from_be_bytes([input[14], input[15]]) as usize } else { usize::MAX };
+            if input.len() < 16 || have != input.len() - 16 || need != declared || have >= need {
+                viol(rec, "partial-counts", format!("Partial({}, {}) reported, {} payload bytes present, declared length {}", have, need, input.len().saturating_sub(16), declared));
+                return;
+            }
+            let mut buf = input.to_vec();
+            buf.resize(16 + need, 0xA5);
+            rec.event();
+            match guard(|| v2::Header::try_from(buf.as_slice()).map(|h| h.len())) {
+                Ok(Ok(n)) if n == 16 + need => rec.class("any-input|Partial completed -> Ok", || show(input, 20)),
+                other => viol(rec, "completion-not-success", format!("Partial({}, {}) was reported, but after supplying exactly the {} missing bytes the result is {:?}", have, need, need - have, other)),
+            }
+        }
+        _ => rec.class("any-input|not-incomplete", || show(input, 20)),
+    }
+}
+
 fn case(pair: u64, len: u16, seed: u64, rec: &mut Recorder) {
     let (vc, fp) = valid_ctl(pair);
     let fam = fp >> 4;
     let size = fam_size(fam).unwrap_or(0);
     let l = len as usize;
     if l < size {
-        rec.case(mix(pair << 20 | l as u64), false);
+        // declared length too small for the family: the header can never be accepted, so the
+        // parser must not report it incomplete - if it does, the statement obliges it to succeed
+        // once exactly the missing bytes are supplied
+        rec.case(mix(pair << 20 | l as u64), true);
+        rec.class("oracle:length<family-size", || format!("pair {:02x} {:02x} length {}", vc, fp, l));
+        with_big(vc, fp, len, |big| {
+            for k in [16usize, 16 + l / 2, (16 + l).saturating_sub(1).max(16)] {
+                follow_through(&big[..k], "length<family-size", rec);
+            }
+        });
         return;
     }
     rec.case(mix(pair << 20 | l as u64), true);
@@ -127,16 +177,27 @@ impl Monitor for C17 {
         "C17"
     }
     fn rule(&self) -> &'static str {
-        "cases = (valid control pair, declared length) with the length at least the family's address size: 24 pairs x a 2048-value length ladder (all lengths below 300, powers of two +-1, the top 16 values, multiples of 4093) in quick, 24 x all 65536 lengths in thorough; per case the header is cut at every k < 16 (must be Incomplete(k)) and at 16, 17, 16+L-1, 16+L/2 and 3 random points (must be Partial(k-16, L)), then completed with exactly the missing number of 0x00 / 0xFF / random bytes (must be Ok of 16+L bytes) and with fewer (must be Partial with the updated count); every error must also be flagged incomplete; non-trivial = length >= family size; distinct = distinct (pair, length)"
+        "cases = (valid control pair, declared length) with the length at least the family's address size: 24 pairs x a 2048-value length ladder (all lengths below 300, powers of two +-1, the top 16 values, multiples of 4093) in quick, 24 x all 65536 lengths in thorough; per case the header is cut at every k < 16 (must be Incomplete(k)) and at 16, 17, 16+L-1, 16+L/2 and 3 random points (must be Partial(k-16, L)), then completed with exactly the missing number of 0x00 / 0xFF / random bytes (must be Ok of 16+L bytes) and with fewer (must be Partial with the updated count); every error must also be flagged incomplete; for declared lengths below the family size, and for every input of a second stream drawn from the v2 workload (control x length ladder samples, cuts, random bytes, mixes), the statement is applied literally: whatever the parser flags Incomplete(n)/Partial(have,need) must carry exact counts and a Partial must turn into a success of 16+need bytes once exactly need-have bytes are appended; non-trivial = input starting with the signature; distinct = distinct (pair, length) / inputs"
     }
     fn streams(&self, tier: Tier) -> Vec<StreamSpec> {
         match tier {
-            Tier::Miri => vec![exhaustive("c17-ladder", 48)],
-            Tier::Quick => vec![exhaustive("c17-ladder", 24 * 2048)],
-            Tier::Thorough => vec![exhaustive("c17-all", 24 * 65536)],
+            Tier::Miri => vec![exhaustive("c17-ladder", 48), stream("c17-any", 100)],
+            Tier::Quick => vec![exhaustive("c17-ladder", 24 * 2048), stream("c17-any", 2_000_000)],
+            Tier::Thorough => vec![exhaustive("c17-all", 24 * 65536), stream("c17-any", 200_000_000)],
         }
     }
     fn run_case(&self, stream: &str, idx: u64, seed: u64, rec: &mut Recorder) {
+        if stream == "c17-any" {
+            let names = ["v2-ctl-s", "v2-ctl-s", "v2-cut", "v2-rand", "v2-mix", "v2-valid"];
+            let name = names[(idx % 6) as usize];
+            crate::c02::SCRATCH.with(|b| {
+                let mut b = b.borrow_mut();
+                spec::v2::v2_case(name, idx, seed, &mut b);
+                rec.case(spec::rng::hash_bytes(&b[..b.len().min(64)]) ^ b.len() as u64, b.len() >= 12 && b[..12] == spec::v2::SIG);
+                follow_through(&b, "any-input", rec);
+            });
+            return;
+        }
         if stream == "c17-all" {
             case(idx >> 16, idx as u16, seed, rec);
         } else {
@@ -147,7 +208,7 @@ impl Monitor for C17 {
         if tier == Tier::Miri {
             return vec!["oracle:length>0"];
         }
-        vec!["oracle:length=0", "oracle:length>0", "oracle:length=65535"]
+        vec!["oracle:length=0", "oracle:length>0", "oracle:length=65535", "oracle:length<family-size"]
     }
     fn replay(&self, case_s: &str, rec: &mut Recorder) {
         // replay: the expectation is recomputed by the oracle for the recorded input
